@@ -24,6 +24,7 @@ let () =
             try
               (match kind with
                | "flw" -> Flw_driver.run_case rest
+               | "tryfrom" -> Flw_driver.run_tryfrom rest
                | "spec" -> Lg_driver.run_spec_case rest
                | "specb" -> Lg_driver.run_specb_case rest
                | "lg" -> Lg_driver.run_lg_case rest
